@@ -12,7 +12,11 @@ echo "--- without patch: demo"
 ( eval "$demo" ) > /tmp/vs_demo_clean.log 2>&1; echo "demo(clean) exit=$?"
 git apply "$sd/patch.diff" || { echo "patch does not apply"; exit 2; }
 echo "--- with patch: suite ($pkg)"
-cargo nextest run -p $pkg --offline --no-fail-fast -E 'not binary(~seeded_demo)' > /tmp/vs_suite.log 2>&1; echo "suite(patched) exit=$?"; grep -E "Summary|^\s+FAIL" /tmp/vs_suite.log | sort | uniq | head
+if [ "$pkg" = workspace ]; then
+  cargo nextest run --workspace --no-fail-fast --tool-config-file pb:/w/lib/nextest.toml --profile pb --test-threads 8 --offline -E 'not binary(~seeded_demo)' > /tmp/vs_suite.log 2>&1
+else
+  cargo nextest run -p $pkg --offline --no-fail-fast -E 'not binary(~seeded_demo)' > /tmp/vs_suite.log 2>&1
+fi; echo "suite(patched) exit=$?"; grep -E "Summary|^\s+FAIL" /tmp/vs_suite.log | sort | uniq | head
 echo "--- with patch: demo"
 ( eval "$demo" ) > /tmp/vs_demo_patched.log 2>&1; echo "demo(patched) exit=$?"; grep -E "Summary|^\s+FAIL|test result" /tmp/vs_demo_patched.log | sort | uniq | head -5
 git checkout -q -- .
